@@ -439,6 +439,12 @@ func (c *Collection) AddDocument(id uint64, vector []float64, metadata []byte) {
 		ID:       id,
 	}
 
+	// An existing document is replaced: take its point out of the index first,
+	// under the vector it was indexed with.
+	if old, err := c.getDocument(id); err == nil {
+		c.lshTree.removePoint(id, old.Vector)
+	}
+
 	// Encode the document
 	encodedVector := encodeDocument(doc, c.Quantization)
 
